@@ -179,7 +179,9 @@ def jobs(tier):
                      {"space": "S2-deadscope", "programs": "an assignment behind return / break / continue x a read of that name in live code"}, 300)
     seqloop = _job("S2-multi-exit-loop-then-branching-code", lambda ch: s2.SeqLoopGen(ch), 3,
                    {"space": "S2-seqloop", "programs": "loop kind x two guarded terminators / plain branches x loop else x what follows (second loop with early return / break, nested if with return, if-return, if-else returns)"}, 900)
-    barejobs = barejobs + [armloop, seqloop, deadscope] + ([c3t2] if tier != "quick" else [])
+    deadcode = _job("S2-dead-compound-statements", lambda ch: s2.DeadCodeGen(ch), 1,
+                    {"space": "S2-deadcode", "programs": "a loop / if behind return / break / continue of the same statement list"}, 300)
+    barejobs = barejobs + [armloop, seqloop, deadscope, deadcode] + ([c3t2] if tier != "quick" else [])
     if tier == "quick":
         return raisejobs + barejobs + [forjob, loopjob, passjob, passjob2,
             _job("S2-ctl-c2-d2-t1", lambda ch: s2.CtlGen(ch, 2, 2, 1), 3,
